@@ -50,7 +50,34 @@ def c01(run):
     return R.finish(run, GAPS["C01"])
 
 
+def seq_map_runs(run, layout_h, clock_h, kinds=("map", "mapof"), quick=(14, 300), thorough=(300, 500)):
+    nseq, nops = Q(run, quick, thorough)
+    seeds = [run.seed] if run.tier == "quick" else [run.seed, run.seed + 1, run.seed + 2]
+    for kind in kinds:
+        for sd in seeds:
+            first = sd == seeds[0]
+            if layout_h:
+                R.seq_correspondence(run, layout_h, "seqmap", "layout_%s_s%d" % (kind, sd),
+                                     ["kind=" + kind, "wb=1", "seed=%d" % sd, "nseq=%d" % nseq, "nops=%d" % nops],
+                                     corpus_files=corpus(run.pid, "seqmap") if first else (), overlay="layout")
+            if clock_h:
+                R.seq_correspondence(run, clock_h, "seqmap", "blackbox_%s_s%d" % (kind, sd),
+                                     ["kind=" + kind, "wb=0", "seed=%d" % (sd + 100), "nseq=%d" % nseq, "nops=%d" % nops])
+
+
+def c11(run):
+    usable = common(run, ["CacheVerif.Props.C11"])
+    lh, err = R.build_harness(run, "layout")
+    run.oblige("go build -overlay of the harness from the working tree (layout mode)", lh is not None, err)
+    ch, err = R.build_harness(run, "clock")
+    run.oblige("go build -overlay of the harness from the working tree (clock mode)", ch is not None, err)
+    if usable and lh and ch:
+        seq_map_runs(run, lh, ch)
+    return R.finish(run, GAPS.get("C11", []))
+
+
 PROPS = {
+    "C11": c11,
     "C01": c01,
 }
 
@@ -78,7 +105,7 @@ def replay(run, path):
     p = json.load(open(path))
     if p.get("kind") == "sequential-differential":
         R.build_tools(run)
-        harness, err = R.build_harness(run, "clock")
+        harness, err = R.build_harness(run, p.get("overlay", "clock"))
         if harness is None:
             print(err)
             return 2
